@@ -418,4 +418,25 @@ MUTANTS = {
         "props": ["C10"],
         "edits": [("monkeytype/util.py", "            if (func.fset is None) and (func.fdel is None):\n                func = func.fget\n            else:\n                raise InvalidTypeError(\n                    f\"Property {module}.{qualname} has setter or deleter.\"\n                )", "            func = func.fget")],
     },
+    "c14_functions_not_sorted": {
+        "props": ["C14"],
+        "edits": [(ST, "        for func_stub in sorted(self.function_stubs.values(), key=lambda s: s.name):\n            parts.append(func_stub.render())", "        for func_stub in self.function_stubs.values():\n            parts.append(func_stub.render())")],
+    },
+    "c14_required_by_first_seen": {
+        "props": ["C14", "C04"],
+        "edits": [(T, "        if len(value_types) == num_typed_dicts\n    }", "        if key in field_annotations(typed_dicts[0])[0]\n    }"),
+                  (T, "        if len(value_types) != num_typed_dicts:\n            optional_fields[key] = value_types", "        if key not in field_annotations(typed_dicts[0])[0]:\n            optional_fields[key] = value_types")],
+    },
+    "c14_import_names_unsorted": {
+        "props": ["C14"],
+        "edits": [(ST, "            names = sorted(self.imports[module])", "            names = list(self.imports[module])")],
+    },
+    "c14_large_union_regress": {
+        "props": ["C14"],
+        "edits": [(T, "                return min(specific, key=lambda a: (a.__module__, a.__qualname__))", "                return specific[0]")],
+    },
+    "c14_attribute_stubs_unsorted": {
+        "props": ["C14"],
+        "edits": [(ST, "                for stub in sorted(self.attribute_stubs, key=lambda stub: stub.name)", "                for stub in self.attribute_stubs")],
+    },
 }
